@@ -107,7 +107,20 @@ func (d *Decoder) PopUint() uint32 {
 	return binary.LittleEndian.Uint32(val)
 }
 
+// Len returns count of bytes, which are not read yet
+func (d *Decoder) Len() int {
+	return d.buf.Len()
+}
+
 func (d *Decoder) PopRawBytes(size int) []byte {
+	if d.err != nil {
+		return nil
+	}
+	if size < 0 || size > d.buf.Len() {
+		d.err = fmt.Errorf("can't read %v bytes: only %v bytes left", size, d.buf.Len())
+		return nil
+	}
+
 	val := make([]byte, size)
 	d.read(val)
 	if d.err != nil {
@@ -195,6 +208,12 @@ func (d *Decoder) popVector(as reflect.Type, ignoreCRC bool) any {
 		return nil
 	}
 
+	// each item of vector takes at least one word, so announced size can't be bigger than count of words left
+	if int64(size) > int64(d.buf.Len()/WordLen) {
+		d.err = fmt.Errorf("vector announces %v items, but only %v bytes left", size, d.buf.Len())
+		return nil
+	}
+
 	x := reflect.MakeSlice(reflect.SliceOf(as), int(size), int(size))
 	for i := 0; i < int(size); i++ {
 		var val reflect.Value
@@ -247,6 +266,11 @@ func (d *Decoder) PopMessage() []byte {
 
 		realSize = int(binary.LittleEndian.Uint32(val))
 		lenNumberSize = WordLen
+	}
+
+	if realSize > d.buf.Len() {
+		d.err = fmt.Errorf("message announces %v bytes, but only %v bytes left", realSize, d.buf.Len())
+		return nil
 	}
 
 	// этот буффер и будет уже реальным собщением
